@@ -73,3 +73,262 @@ UNITS["v_closure_runner"] = dict(
              safety_id="C13.map_value.safety"),
     ],
 )
+
+# ------------------------------------------------------------------------------------------------
+OPRS = "src/compiler/expression/op.rs"
+PRE, POST = "old(ctx).trace@", "final(ctx).trace@"
+CTL = ("ctl_propagates(%s, %s, r)" % (PRE, POST))
+RW_USE_VALUE = dict(**{"from": "use crate::value::Value::{Boolean, Null};", "to": "use crate::Value::{Boolean, Null};", "why": "module path of the prelude Value"})
+RW_USE_OPCODE = dict(**{"from": "use ast::Opcode::", "to": "use crate::Opcode::", "why": "module path of the prelude Opcode"})
+RW_FALSE_INTO = dict(**{"from": "Ok(false.into())", "to": "Ok(Value::Boolean(false))", "why": "From<bool> for Value"})
+RW_OK_INTO = dict(**{"from": r"Ok\((\(?!?lhs\.eq_lossy\(&rhs\)\)?)\.into\(\)\)", "to": r"Ok(Value::Boolean(\1))", "regex": True, "why": "From<bool> for Value"})
+
+UNITS["v_op_resolve"] = dict(
+    prop=["C06", "C07", "C08", "C09"], tier="q", prelude=["interp.rs", "nodes.rs", "op.rs"],
+    fns=[dict(
+        id="op_resolve", file=OPRS, impl="impl Expression for Op", name="resolve",
+        orig_sig="fn resolve(&self, ctx: &mut Context) -> Resolved",
+        wrap=("impl Op {", "}"),
+        sig="pub fn resolve(&self, ctx: &mut Context) -> (r: Resolved)",
+        desugar=["or_else", "map_err", "try_or"],
+        rewrites=[RW_USE_VALUE, RW_USE_OPCODE, RW_FALSE_INTO, RW_OK_INTO],
+        ensures=[
+            ("C06.op.ctl", "a `return` raised by an operand of any binary operator (incl. `??`, `||`, `&&`) ends the operator with that same return; nothing is evaluated after it",
+             "forall|i: int| %s.len() <= i < %s.len() && (#[trigger] %s[i]) is Eval && %s[i]->Eval_1 is Err && %s[i]->Eval_1->Err_0 is Return ==> i == %s.len() - 1 && r == %s[i]->Eval_1" % (PRE, POST, POST, POST, POST, POST, POST)),
+            ("C07.op.ctl", "an `abort` raised by an operand of any binary operator (incl. `??`, `||`, `&&`) ends the operator with that same abort; nothing is evaluated after it",
+             "forall|i: int| %s.len() <= i < %s.len() && (#[trigger] %s[i]) is Eval && %s[i]->Eval_1 is Err && %s[i]->Eval_1->Err_0 is Abort ==> i == %s.len() - 1 && r == %s[i]->Eval_1" % (PRE, POST, POST, POST, POST, POST, POST)),
+            ("C09.op.lhs_first", "the left operand is always evaluated first and the trace only grows",
+             "is_prefix(%s, %s) && added(%s, %s) >= 1 && eval_of(nth(%s, %s, 0), self.lhs.id@)" % (PRE, POST, PRE, POST, PRE, POST)),
+            ("C08.op.err_ok", "`a ?? b`: when a succeeds the result is a's value and b is not evaluated",
+             "self.opcode is Err && outcome(nth(%s, %s, 0)) is Ok ==> added(%s, %s) == 1 && r == outcome(nth(%s, %s, 0))" % (PRE, POST, PRE, POST, PRE, POST)),
+            ("C08.op.err_fallback", "`a ?? b`: when a fails with a runtime error the result is the outcome of b",
+             "self.opcode is Err && outcome(nth(%s, %s, 0)) is Err && !is_ctl(outcome(nth(%s, %s, 0))->Err_0) ==> added(%s, %s) == 2 && eval_of(nth(%s, %s, 1), self.rhs.id@) && r == outcome(nth(%s, %s, 1))" % (PRE, POST, PRE, POST, PRE, POST, PRE, POST, PRE, POST)),
+            ("C09.op.or_truthy", "`a || b`: when a is neither null nor false the result is a and b is not evaluated",
+             "self.opcode is Or && outcome(nth(%s, %s, 0)) is Ok && !falsy(outcome(nth(%s, %s, 0))->Ok_0) ==> added(%s, %s) == 1 && r == outcome(nth(%s, %s, 0))" % (PRE, POST, PRE, POST, PRE, POST, PRE, POST)),
+            ("C09.op.or_falsy", "`a || b`: when a is null or false, b is evaluated and its value is the result",
+             "self.opcode is Or && outcome(nth(%s, %s, 0)) is Ok && falsy(outcome(nth(%s, %s, 0))->Ok_0) ==> added(%s, %s) == 2 && eval_of(nth(%s, %s, 1), self.rhs.id@) && (outcome(nth(%s, %s, 1)) is Ok ==> r == outcome(nth(%s, %s, 1)))" % (PRE, POST, PRE, POST, PRE, POST, PRE, POST, PRE, POST, PRE, POST)),
+            ("C09.op.and_short", "`a && b`: when a is null or false the result is false and b is not evaluated",
+             "self.opcode is And && outcome(nth(%s, %s, 0)) is Ok && falsy(outcome(nth(%s, %s, 0))->Ok_0) ==> added(%s, %s) == 1 && r == Ok::<Value, ExpressionError>(Value::Boolean(false))" % (PRE, POST, PRE, POST, PRE, POST)),
+            ("C09.op.and_full", "`a && b`: otherwise b is evaluated and the result is the boolean conjunction (null rhs counts as false)",
+             "self.opcode is And && outcome(nth(%s, %s, 0)) is Ok && !falsy(outcome(nth(%s, %s, 0))->Ok_0) ==> added(%s, %s) == 2 && eval_of(nth(%s, %s, 1), self.rhs.id@) && (outcome(nth(%s, %s, 1)) is Ok && spec_and(outcome(nth(%s, %s, 0))->Ok_0, outcome(nth(%s, %s, 1))->Ok_0) is Some ==> r == Ok::<Value, ExpressionError>(spec_and(outcome(nth(%s, %s, 0))->Ok_0, outcome(nth(%s, %s, 1))->Ok_0)->Some_0))" % ((PRE, POST) * 9)),
+            ("C09.op.eager", "every other binary operator evaluates both operands, left then right",
+             "!(self.opcode is Err || self.opcode is Or || self.opcode is And) && outcome(nth(%s, %s, 0)) is Ok ==> added(%s, %s) == 2 && eval_of(nth(%s, %s, 1), self.rhs.id@)" % ((PRE, POST) * 3)),
+        ],
+        safety_id="C04.op_resolve.safety", safety_text="body: `unreachable!()` is unreachable, no arithmetic/bounds obligations fail",
+    )],
+)
+
+# ------------------------------------------------------------------------------------------------
+EXPR = "src/compiler/expression/"
+SIG_RESOLVE = "fn resolve(&self, ctx: &mut Context) -> Resolved"
+VSIG = "pub fn resolve(&self, ctx: &mut Context) -> (r: Resolved)"
+
+
+def ctl_clauses(node):
+    q = "forall|i: int| %s.len() <= i < %s.len() && (#[trigger] %s[i]) is Eval && %s[i]->Eval_1 is Err && %s[i]->Eval_1->Err_0 is %%s ==> i == %s.len() - 1 && r == %s[i]->Eval_1" % (PRE, POST, POST, POST, POST, POST, POST)
+    return [
+        ("C06.%s.ctl" % node, "a `return` raised by any child this node evaluates ends the node with that same return; nothing is evaluated or written after it", q % "Return"),
+        ("C07.%s.ctl" % node, "an `abort` raised by any child this node evaluates ends the node with that same abort; nothing is evaluated or written after it", q % "Abort"),
+        ("C09.%s.prefix" % node, "the node only appends to the evaluation trace", "is_prefix(%s, %s)" % (PRE, POST)),
+    ]
+
+
+TRY_FOR_EACH = dict(**{
+    "from": r"other\s*\.iter\(\)\s*\.try_for_each\(\|expr\| expr\.resolve\(ctx\)\.map\(\|_\| \(\)\)\)\?;",
+    "regex": True, "count": 1,
+    "to": """let ghost __pre = ctx.trace@;
+        let mut __i: usize = 0;
+        while __i < other.len()
+            invariant __pre == old(ctx).trace@, other@.len() == self.inner@.len() - 1, forall|k: int| 0 <= k < other@.len() ==> other@[k] == self.inner@[k],
+                      __i <= other@.len(), is_prefix(__pre, ctx.trace@), ctx.trace@.len() == __pre.len() + __i,
+                      all_ok_in(ctx.trace@, __pre.len() as int, ctx.trace@.len() as int),
+                      evals_in_order(ctx.trace@, __pre.len() as int, other@, __i as int),
+            decreases other@.len() - __i,
+        {
+            match other[__i].resolve(ctx) { core::result::Result::Ok(_) => {}, core::result::Result::Err(__e) => { return core::result::Result::Err(__e); } }
+            __i += 1;
+        }""",
+    "why": "Iterator::try_for_each by definition: call the closure on each element in order, stop at the first Err and return it"})
+
+COLLECT_ARRAY = dict(**{
+    "from": r"self\.inner\s*\.iter\(\)\s*\.map\(\|expr\| expr\.resolve\(ctx\)\)\s*\.collect::<Result<Vec<_>, _>>\(\)\s*\.map\(Value::Array\)",
+    "regex": True, "count": 1,
+    "to": """{
+        let ghost __pre = ctx.trace@;
+        let mut __out: Vec<Value> = Vec::new();
+        let mut __i: usize = 0;
+        while __i < self.inner.len()
+            invariant __pre == old(ctx).trace@, __i <= self.inner@.len(), is_prefix(__pre, ctx.trace@), ctx.trace@.len() == __pre.len() + __i,
+                      all_ok_in(ctx.trace@, __pre.len() as int, ctx.trace@.len() as int),
+                      evals_in_order(ctx.trace@, __pre.len() as int, self.inner@, __i as int),
+            decreases self.inner@.len() - __i,
+        {
+            match self.inner[__i].resolve(ctx) { core::result::Result::Ok(__v) => { __out.push(__v); }, core::result::Result::Err(__e) => { return core::result::Result::Err(__e); } }
+            __i += 1;
+        }
+        core::result::Result::Ok(value_array(__out))
+        }""",
+    "why": "iter().map(f).collect::<Result<Vec<_>,_>>() by definition (FromIterator for Result): evaluate in order, stop at the first Err and return it; .map(Value::Array) wraps the Ok vector"})
+
+COLLECT_OBJECT = dict(**{
+    "from": r"self\.inner\s*\.iter\(\)\s*\.map\(\|\(key, expr\)\| expr\.resolve\(ctx\)\.map\(\|v\| \(key\.clone\(\), v\)\)\)\s*\.collect::<Result<BTreeMap<_, _>, _>>\(\)\s*\.map\(Value::Object\)",
+    "regex": True, "count": 1,
+    "to": """{
+        let ghost __pre = ctx.trace@;
+        let mut __out: Vec<(KeyString, Value)> = Vec::new();
+        let mut __i: usize = 0;
+        while __i < self.inner.len()
+            invariant __pre == old(ctx).trace@, __i <= self.inner@.len(), is_prefix(__pre, ctx.trace@), ctx.trace@.len() == __pre.len() + __i,
+                      all_ok_in(ctx.trace@, __pre.len() as int, ctx.trace@.len() as int),
+                      evals_in_order(ctx.trace@, __pre.len() as int, kids_of_object(self.inner@), __i as int),
+            decreases self.inner@.len() - __i,
+        {
+            match self.inner[__i].1.resolve(ctx) { core::result::Result::Ok(__v) => { __out.push((self.inner[__i].0.clone(), __v)); }, core::result::Result::Err(__e) => { return core::result::Result::Err(__e); } }
+            __i += 1;
+        }
+        core::result::Result::Ok(value_object(__out))
+        }""",
+    "why": "iter().map(f).collect::<Result<BTreeMap<_,_>,_>>() by definition: evaluate in key order, stop at the first Err"})
+
+ABORT_MSG = dict(**{
+    "from": r"let message = self\s*\.message\s*\.as_ref\(\)\s*\.map::<Result<_, ExpressionError>, _>\(\|expr\| \{\s*Ok\(expr\.resolve\(ctx\)\?\.try_bytes_utf8_lossy\(\)\?\.to_string\(\)\)\s*\}\)\s*\.transpose\(\)\?;",
+    "regex": True, "count": 1,
+    "to": """let message = match self.message.as_ref() {
+            core::option::Option::Some(expr) => core::option::Option::Some(expr.resolve(ctx)?.try_message()?),
+            core::option::Option::None => core::option::Option::None,
+        };""",
+    "why": "Option::map(f).transpose()? by definition; try_bytes_utf8_lossy()?.to_string() is the opaque conversion try_message"})
+
+UNITS["v_nodes"] = dict(
+    prop=["C06", "C07", "C08", "C09"], tier="q", prelude=["interp.rs", "nodes.rs"],
+    fns=[
+        dict(id="not", file=EXPR + "not.rs", impl="impl Expression for Not", name="resolve", orig_sig=SIG_RESOLVE,
+             wrap=("impl Not {", "}"), sig=VSIG,
+             rewrites=[dict(**{"from": "Ok((!self.inner.resolve(ctx)?.try_boolean()?).into())",
+                               "to": "Ok(Value::Boolean(!self.inner.resolve(ctx)?.try_boolean_ee()?))",
+                               "why": "try_boolean + From<ValueError> composed (try_boolean_ee); From<bool> for Value"})],
+             ensures=ctl_clauses("not") + [
+                 ("C09.not.once", "the operand is evaluated exactly once", "added(%s, %s) == 1 && eval_of(nth(%s, %s, 0), self.inner.id@)" % (PRE, POST, PRE, POST))],
+             safety_id="C04.not.safety"),
+        dict(id="unary", file=EXPR + "unary.rs", impl="impl Expression for Unary", name="resolve", orig_sig=SIG_RESOLVE,
+             wrap=("impl Unary {", "}"), sig=VSIG,
+             rewrites=[dict(**{"from": "use Variant::Not;", "to": "use crate::UnaryVariant::Not;", "why": "prelude name of unary::Variant"})],
+             ensures=ctl_clauses("unary"), safety_id="C04.unary.safety"),
+        dict(id="return", file=EXPR + "return.rs", impl="impl Expression for Return", name="resolve", orig_sig=SIG_RESOLVE,
+             wrap=("impl Return {", "}"), sig=VSIG,
+             ensures=ctl_clauses("return") + [
+                 ("C06.return.raises", "`return e` evaluates e once and, when e succeeds with v, yields the return outcome carrying exactly v",
+                  "added(%s, %s) == 1 && eval_of(nth(%s, %s, 0), self.expr.id@) && (outcome(nth(%s, %s, 0)) is Ok ==> r is Err && r->Err_0 is Return && r->Err_0->Return_value == outcome(nth(%s, %s, 0))->Ok_0 && r->Err_0->Return_span == self.span)" % ((PRE, POST) * 4))],
+             safety_id="C04.return.safety"),
+        dict(id="abort", file=EXPR + "abort.rs", impl="impl Expression for Abort", name="resolve", orig_sig=SIG_RESOLVE,
+             wrap=("impl Abort {", "}"), sig=VSIG, rewrites=[ABORT_MSG],
+             ensures=ctl_clauses("abort") + [
+                 ("C07.abort.raises", "`abort` without a message yields the abort outcome with no message and evaluates nothing; with a message expression that succeeds it yields the abort outcome",
+                  "(self.message is None ==> added(%s, %s) == 0 && r is Err && r->Err_0 is Abort && r->Err_0->Abort_message is None && r->Err_0->Abort_span == self.span) && (self.message is Some ==> added(%s, %s) == 1 && (outcome(nth(%s, %s, 0)) is Ok ==> r is Err && (r->Err_0 is Abort || r->Err_0 is Error)))" % ((PRE, POST) * 3))],
+             safety_id="C04.abort.safety"),
+        dict(id="group", file=EXPR + "group.rs", impl="impl Expression for Group", name="resolve", orig_sig=SIG_RESOLVE,
+             wrap=("impl Group {", "}"), sig=VSIG,
+             ensures=ctl_clauses("group") + [("C09.group.transparent", "a group yields exactly its inner expression's outcome",
+                                              "added(%s, %s) == 1 && r == outcome(nth(%s, %s, 0))" % (PRE, POST, PRE, POST))],
+             safety_id="C04.group.safety"),
+        dict(id="block", file=EXPR + "block.rs", impl="impl Expression for Block", name="resolve", orig_sig=SIG_RESOLVE,
+             wrap=("impl Block {", "}"), sig=VSIG,
+             requires=["self.inner@.len() > 0"],
+             rewrites=[dict(**{"from": 'self.inner.split_last().expect("at least one expression")', "to": "split_last_expr(&self.inner)", "why": "slice::split_last on a non-empty Vec (precondition: blocks are never empty)"}),
+                       TRY_FOR_EACH],
+             ensures=ctl_clauses("block") + [
+                 ("C09.block.count", "a block evaluates at least one and at most all of its expressions",
+                  "added(%s, %s) >= 1 && added(%s, %s) <= self.inner@.len()" % (PRE, POST, PRE, POST)),
+                 ("C09.block.order", "a block evaluates its expressions in source order",
+                  "evals_in_order(%s, %s.len() as int, self.inner@, added(%s, %s))" % (POST, PRE, PRE, POST)),
+                 ("C09.block.stops", "every expression but the last evaluated one succeeded (evaluation stops at the first failure)",
+                  "all_ok_in(%s, %s.len() as int, %s.len() - 1)" % (POST, PRE, POST)),
+                 ("C09.block.value", "the block's outcome is the outcome of the last expression it evaluated; success means all were evaluated",
+                  "added(%s, %s) >= 1 && %s.last() is Eval && r == outcome(%s.last()) && (r is Ok ==> added(%s, %s) == self.inner@.len())" % (PRE, POST, POST, POST, PRE, POST))],
+             safety_id="C04.block.safety"),
+        dict(id="predicate", file=EXPR + "predicate.rs", impl="impl Expression for Predicate", name="resolve", orig_sig=SIG_RESOLVE,
+             wrap=("impl Predicate {", "}"), sig=VSIG, requires=["self.inner.inner@.len() > 0"],
+             ensures=ctl_clauses("predicate") + [
+                 ("C09.predicate.count", "a predicate evaluates at least one and at most all of its expressions",
+                  "added(%s, %s) >= 1 && added(%s, %s) <= self.inner.inner@.len()" % (PRE, POST, PRE, POST)),
+                 ("C09.predicate.order", "a predicate evaluates its expressions in source order",
+                  "evals_in_order(%s, %s.len() as int, self.inner.inner@, added(%s, %s))" % (POST, PRE, PRE, POST)),
+                 ("C09.predicate.stops", "evaluation stops at the first expression that does not succeed",
+                  "all_ok_in(%s, %s.len() as int, %s.len() - 1)" % (POST, PRE, POST)),
+                 ("C09.predicate.value", "the predicate's outcome is the outcome of the last expression it evaluated",
+                  "%s.last() is Eval && r == outcome(%s.last()) && (r is Ok ==> added(%s, %s) == self.inner.inner@.len())" % (POST, POST, PRE, POST))],
+             safety_id="C04.predicate.safety"),
+        dict(id="array", file=EXPR + "array.rs", impl="impl Expression for Array", name="resolve", orig_sig=SIG_RESOLVE,
+             wrap=("impl Array {", "}"), sig=VSIG, rewrites=[COLLECT_ARRAY],
+             ensures=ctl_clauses("array") + [
+                 ("C09.array.sequence", "an array literal evaluates its elements in order and stops at the first one that does not succeed, yielding that outcome",
+                  "added(%s, %s) <= self.inner@.len() && evals_in_order(%s, %s.len() as int, self.inner@, added(%s, %s)) && (r is Ok ==> added(%s, %s) == self.inner@.len() && all_ok_in(%s, %s.len() as int, %s.len() as int)) && (r is Err ==> added(%s, %s) >= 1 && r == outcome(%s.last()))" % (PRE, POST, POST, PRE, PRE, POST, PRE, POST, POST, PRE, POST, PRE, POST, POST))],
+             safety_id="C04.array.safety"),
+        dict(id="object", file=EXPR + "object.rs", impl="impl Expression for Object", name="resolve", orig_sig=SIG_RESOLVE,
+             wrap=("impl Object {", "}"), sig=VSIG, rewrites=[COLLECT_OBJECT],
+             ensures=ctl_clauses("object") + [
+                 ("C09.object.sequence", "an object literal evaluates its values in key order and stops at the first one that does not succeed, yielding that outcome",
+                  "added(%s, %s) <= self.inner@.len() && evals_in_order(%s, %s.len() as int, kids_of_object(self.inner@), added(%s, %s)) && (r is Ok ==> added(%s, %s) == self.inner@.len()) && (r is Err ==> added(%s, %s) >= 1 && r == outcome(%s.last()))" % (PRE, POST, POST, PRE, PRE, POST, PRE, POST, PRE, POST, POST))],
+             safety_id="C04.object.safety"),
+    ],
+)
+
+NODES = UNITS["v_nodes"]["fns"]
+NODES += [
+    dict(id="container", file=EXPR + "container.rs", impl="impl Expression for Container", name="resolve", orig_sig=SIG_RESOLVE,
+         wrap=("impl Container {", "}"), sig=VSIG,
+         requires=["self.variant is Block ==> self.variant->Block_0.inner@.len() > 0"],
+         rewrites=[dict(**{"from": "use Variant::{Array, Block, Group, Object};", "to": "use crate::ContainerVariant::{Array, Block, Group, Object};", "why": "prelude name of container::Variant"})],
+         ensures=ctl_clauses("container"), safety_id="C04.container.safety"),
+    dict(id="if_statement", file=EXPR + "if_statement.rs", impl="impl Expression for IfStatement", name="resolve", orig_sig=SIG_RESOLVE,
+         wrap=("impl IfStatement {", "}"), sig=VSIG,
+         requires=["self.predicate.inner.inner@.len() > 0", "self.if_block.inner@.len() > 0", "self.else_block is Some ==> self.else_block->Some_0.inner@.len() > 0"],
+         desugar=["map_or"],
+         rewrites=[dict(**{"from": ".try_boolean()?", "to": ".try_boolean_ee()?", "why": "try_boolean + From<ValueError> composed (try_boolean_ee)"})],
+         ensures=ctl_clauses("if") + [
+             ("C09.if.predicate_first", "the predicate is evaluated first",
+              "added(%s, %s) >= 1 && eval_of(nth(%s, %s, 0), self.predicate.inner.inner@[0].id@)" % (PRE, POST, PRE, POST)),
+             ("C09.if.missing_else", "when the predicate is false and there is no else branch the result is null and nothing but the predicate was evaluated",
+              "self.else_block is None && self.predicate.inner.inner@.len() == 1 && outcome(nth(%s, %s, 0)) == Ok::<Value, ExpressionError>(Value::Boolean(false)) ==> r == Ok::<Value, ExpressionError>(Value::Null) && added(%s, %s) == 1" % (PRE, POST, PRE, POST)),
+             ("C09.if.true_branch", "when the predicate is true exactly the if-branch runs (never the else-branch) and its outcome is the result",
+              "self.predicate.inner.inner@.len() == 1 && outcome(nth(%s, %s, 0)) == Ok::<Value, ExpressionError>(Value::Boolean(true)) ==> added(%s, %s) >= 2 && added(%s, %s) <= 1 + self.if_block.inner@.len() && evals_in_order(%s, %s.len() as int + 1, self.if_block.inner@, added(%s, %s) - 1) && r == outcome(%s.last())" % (PRE, POST, PRE, POST, PRE, POST, POST, PRE, PRE, POST, POST)),
+             ("C09.if.false_branch", "when the predicate is false and an else branch exists exactly the else-branch runs and its outcome is the result",
+              "self.else_block is Some && self.predicate.inner.inner@.len() == 1 && outcome(nth(%s, %s, 0)) == Ok::<Value, ExpressionError>(Value::Boolean(false)) ==> added(%s, %s) >= 2 && added(%s, %s) <= 1 + self.else_block->Some_0.inner@.len() && evals_in_order(%s, %s.len() as int + 1, self.else_block->Some_0.inner@, added(%s, %s) - 1) && r == outcome(%s.last())" % (PRE, POST, PRE, POST, PRE, POST, POST, PRE, PRE, POST, POST)),
+         ],
+         safety_id="C04.if.safety"),
+    dict(id="program", file="src/compiler/program.rs", impl="impl Program", name="resolve",
+         orig_sig="fn resolve(&self, ctx: &mut Context) -> Resolved",
+         wrap=("impl Program {", "}"), sig=VSIG, requires=["self.expressions.inner@.len() > 0"],
+         ensures=ctl_clauses("program"), safety_id="C04.program.safety"),
+    dict(id="assignment", file=EXPR + "assignment.rs", impl="impl<U> Expression for Variant<Target, U>", name="resolve", orig_sig=SIG_RESOLVE,
+         wrap=("impl Variant {", "}"), sig=VSIG,
+         rewrites=[dict(**{"from": "use Variant::{Infallible, Single};", "to": "use crate::Variant::{Infallible, Single};", "why": "prelude name"}),
+                   dict(**{"from": "Value::from(error.to_string())", "to": "error.to_message_value()", "why": "error message string as a Value (opaque bytes)"})],
+         ensures=ctl_clauses("assignment") + [
+             ("C08.assign.single", "`target = e`: when e succeeds with v, v is stored in target (one write) and is the value of the assignment; when e does not succeed nothing is written",
+              "self is Single ==> added(%s, %s) >= 1 && eval_of(nth(%s, %s, 0), self->Single_expr.id@) && (outcome(nth(%s, %s, 0)) is Ok ==> added(%s, %s) == 2 && nth(%s, %s, 1) == Ev::Write(self->Single_target.id@, outcome(nth(%s, %s, 0))->Ok_0) && r == outcome(nth(%s, %s, 0))) && (outcome(nth(%s, %s, 0)) is Err ==> added(%s, %s) == 1 && r == outcome(nth(%s, %s, 0)))" % ((PRE, POST) * 10)),
+             ("C08.assign.infallible_ok", "`ok, err = e`: when e succeeds with v: ok := v, err := null, value v",
+              "self is Infallible && outcome(nth(%s, %s, 0)) is Ok ==> added(%s, %s) == 3 && nth(%s, %s, 1) == Ev::Write(self->Infallible_ok.id@, outcome(nth(%s, %s, 0))->Ok_0) && nth(%s, %s, 2) == Ev::Write(self->Infallible_err.id@, Value::Null) && r == outcome(nth(%s, %s, 0))" % ((PRE, POST) * 6)),
+             ("C08.assign.infallible_err", "`ok, err = e`: when e fails with a runtime error: ok := the stored default, err := the message, value = the message",
+              "self is Infallible && outcome(nth(%s, %s, 0)) is Err && !is_ctl(outcome(nth(%s, %s, 0))->Err_0) ==> added(%s, %s) == 3 && nth(%s, %s, 1) == Ev::Write(self->Infallible_ok.id@, self->Infallible_default) && nth(%s, %s, 2) is Write && nth(%s, %s, 2)->Write_0 == self->Infallible_err.id@ && nth(%s, %s, 2)->Write_1 is Bytes && r == Ok::<Value, ExpressionError>(nth(%s, %s, 2)->Write_1)" % ((PRE, POST) * 8)),
+             ("C08.assign.expr_first", "the right-hand side is evaluated first, exactly once",
+              "added(%s, %s) >= 1 && nth(%s, %s, 0) is Eval && (forall|k: int| 1 <= k < added(%s, %s) ==> !((#[trigger] nth(%s, %s, k)) is Eval))" % ((PRE, POST) * 4)),
+         ],
+         safety_id="C04.assignment.safety"),
+    dict(id="function_call", file=EXPR + "function_call.rs", impl="impl Expression for FunctionCall", name="resolve", orig_sig=SIG_RESOLVE,
+         wrap=("impl FunctionCall {", "}"), sig=VSIG,
+         desugar=["map_err"],
+         rewrites=[
+             dict(**{"from": r'"return cannot be used inside closures"\.to_owned\(\)', "to": "opaque_msg()", "regex": True, "optional": True, "why": "message text is opaque"}),
+             dict(**{"from": r'vec!\[Label::primary\(\s*"return cannot be used inside closures",\s*span,\s*\)\]', "to": "opaque_list()", "regex": True, "optional": True, "why": "labels are opaque"}),
+             dict(**{"from": "Vec::new()", "to": "opaque_list()", "optional": True, "why": "notes are opaque"}),
+             dict(**{"from": r"format!\(\s*r#\"function call error for .*?message\s*\)", "to": "opaque_msg()", "regex": True, "why": "message text is opaque"}),
+         ],
+         ensures=ctl_clauses("function_call") + [
+             ("C06.function_call.once", "a function call evaluates its compiled function expression exactly once and passes successful values through unchanged",
+              "added(%s, %s) == 1 && (outcome(nth(%s, %s, 0)) is Ok ==> r == outcome(nth(%s, %s, 0)))" % ((PRE, POST) * 3)),
+             ("C02.function_call.error_class", "a runtime error of the function stays a runtime error (it is only annotated)",
+              "outcome(nth(%s, %s, 0)) is Err && outcome(nth(%s, %s, 0))->Err_0 is Error ==> r is Err && r->Err_0 is Error" % ((PRE, POST) * 2)),
+         ],
+         safety_id="C04.function_call.safety"),
+]
